@@ -415,6 +415,10 @@ class P2PConnection:
                 await asyncio.sleep(wait_time - time_diff)
 
         expected = payload.RESPONSE_TYPE if isinstance(payload, APCIRequest) else None
+        if self._response_waiter.done() and self._connected:
+            # discard a telegram received before this request is sent
+            # (eg. the response to an earlier request that failed waiting for its ACK)
+            self._response_waiter = asyncio.get_event_loop().create_future()
         await self.send_data(payload)
         response = await self._receive(expected)
         self._last_response_time = time.time()
